@@ -208,8 +208,11 @@ func (g *gen) addEdge(from, to int) {
 		}
 		kind = DynamicImport
 	case fk == ESM && tk == CJS:
-		kind = []string{ImportNamed, ImportDefault, ImportStar, ImportSide}[g.intn(4, "edgekind-cjs")]
+		kind = []string{ImportNamed, ImportDefault, ImportStar, ImportSide, ExportStar, ExportStarAs}[g.intn(6, "edgekind-cjs")]
 		g.labels["esm-imports-cjs"] = true
+		if kind == ExportStar {
+			g.labels["export-star-from-cjs"] = true
+		}
 	default:
 		opts := []string{ImportNamed, ImportNamed, ImportDefault, ImportStar, ImportSide, ExportFrom, ExportStar, ExportStarAs}
 		if g.cfg.AllowDynamic && g.isEntry(from) {
